@@ -658,3 +658,8 @@ CHECKS["C12"]["manifest_text"] = CHECKS["C12"]["manifest_text"].replace(
     "the stamped keys are exactly (s,k),(s,k+1),… in document order — dense and duplicate-free — and the counter advances by the number of elements (C12_keys, C12_keys_nodup)",
     "the stamped keys are a duplicate-free permutation of (s,k),(s,k+1),… and the counter advances by the number of elements (C12_keys_all, C12_keys_nodup); "
     "they are in document order for every view without a batch made while it is built (C12_keys; with such a batch the regions take their keys in the order in which the batch re-runs them)")
+
+# --- repair D29 (mode resourcebo, machine boStep): Props/C15Self
+CHECKS["C15"]["theorems"] += [AS + n for n in ["C15_boundary_observer_step", "C15_boundary_observer_write"]]
+CHECKS["C15"]["status"] += ("; an observer of the resource's own boundary that moves the dependency on when the boundary starts loading (repair D29, mode resourcebo): "
+    "every step is a machine step of a translated event (C15_boundary_observer_step), the fetch a write starts is one for the value the dependency has afterwards")
